@@ -127,7 +127,7 @@ def classify(unit, res, gen_path):
                 kind = k
                 break
         rec = dict(kind=kind, msg=msg, rendered=d.get('rendered', ''), fn=None, addr=None,
-                   clause=None, clause_tags=None, src=None, tmpl=None, callee_clause=None)
+                   clause=None, clause_tags=None, src=None, tmpl=None, callee_clause=None, diag=d)
         # function = the one containing the primary span
         prim = [s for s in spans if s[4]] or spans
         for s in prim:
